@@ -370,8 +370,15 @@ def hilbert_cpu_list(meta, scaling, select, infofile):
             new_bbox = True
             func_test = select[key](xyz_centers)
             inds = np.argwhere(func_test.values).ravel()
-            start = xyz_centers[inds.min()] - (half_dxmin * scaling.units)
-            end = xyz_centers[inds.max()] + (half_dxmin * scaling.units)
+            if len(inds) == 0:
+                # The selection falls between the sampled centers (it can be narrower
+                # than their spacing when levelmax > 18): no pre-selection
+                return
+            # When the sampling is coarser than the finest cells, the selection can
+            # reach up to one spacing beyond the outermost center that satisfies it
+            pad = half_dxmin if ncells == 2 ** meta["levelmax"] else 2.0 * half_dxmin
+            start = xyz_centers[inds.min()] - (pad * scaling.units)
+            end = xyz_centers[inds.max()] + (pad * scaling.units)
             bounding_box["{}min".format(c)] = start._array / box_size
             bounding_box["{}max".format(c)] = end._array / box_size
 
